@@ -2212,10 +2212,12 @@ class unyt_array(np.ndarray):
          [8. 8.]] km*s**2
         """
         res_units = self.units * getattr(b, "units", NULL_UNIT)
-        ret = self.view(np.ndarray).dot(np.asarray(b), out=out) * res_units
-        if out is not None:
+        if out is None:
+            return self.view(np.ndarray).dot(np.asarray(b)) * res_units
+        res = self.view(np.ndarray).dot(np.asarray(b), out=np.asarray(out))
+        if getattr(out, "units", None) is not None:
             out.units = res_units
-        return ret
+        return unyt_array(res, res_units, bypass_validation=True)
 
     def trace(self, offset=0, axis1=0, axis2=1, dtype=None, out=None):
         """Sum along diagonals, see :func:`numpy.trace` (units are kept)."""
